@@ -25,7 +25,7 @@ claim(
 claim(
     "C29",
     "other",
-    "Decides the overlap predicate for every integer input: check_overlap only compares the eight slice endpoints (checked by a dataflow scan), so evaluating it on one representative of each of the 13^3 combinations of per-axis order types (Allen relations) is exhaustive; oracle: a true 3-D half-open intersection must yield True. Also decides that place_objects applies an object iff no device overlaps it and apply_params re-applies iff one does (same receiver/argument orientation), after the device loop and against the current material arrays. Behaviourally: apply_params interpreted end to end with two devices and three other objects re-applies exactly those overlapping some device (the first as well as the last), once each, and every material-state argument (incl. the c4 coefficients when allocated) is the array the function returns. What apply() computes is not decided.",
+    "Decides the overlap predicate for every integer input: check_overlap only compares the eight slice endpoints (checked by a dataflow scan), so evaluating it on one representative of each of the 13^3 combinations of per-axis order types (Allen relations) is exhaustive; oracle: a true 3-D half-open intersection must yield True. Also decides that place_objects applies an object iff no device overlaps it and apply_params re-applies iff one does (same receiver/argument orientation), after the device loop and against the current material arrays. Behaviourally: apply_params interpreted end to end with two devices and three other objects re-applies exactly those overlapping some device (the first as well as the last), once each, and every material-state argument (incl. the c4 coefficients when allocated) is the array the function returns. What apply() computes is not decided. The re-apply gate is exercised through the repo's own predicate on concrete stand-in boxes (an object flush against the first device, one sharing cells with the last, one separated): the flush and the overlapping object are re-applied once each with the returned arrays, the separated one is not.",
     TB + "; exhaustiveness rests on the comparison-only dataflow check",
     "finite order-type (region) enumeration by abstract interpretation + syntax-tree rules on the two call sites",
     "DESIGN.md §5 C29",
@@ -34,7 +34,7 @@ claim(
 claim(
     "C17",
     "other",
-    "Decides, for every update() body in the PhasorDetector family (base class and each override found through the class index), that each stored entry grows per step by exactly component*exp(+i*2*pi*f*step*dt)*scale*window[step] (subtracted for inverse detectors), with scale=2/sum(window) or the stride; the component selector table; the construction of window and window sum in place_on_grid; stride thinning of the on-list (exhaustive for lists up to length 7, strides 1..4); and the phasor Poynting post-processing Re(E x H*), direction sign, component selection and the 1/2 factor in continuous mode only. All by abstract interpretation on symbolic fields with every unspecified detector attribute symbolic, so an extraneous factor shows up. Floating-point accumulation error is not decided.",
+    "Decides, for every update() body in the PhasorDetector family (base class and each override found through the class index), that each stored entry grows per step by exactly component*exp(+i*2*pi*f*step*dt)*scale*window[step] (subtracted for inverse detectors), with scale=2/sum(window) or the stride; the component selector table; the construction of window and window sum in place_on_grid; stride thinning of the on-list (exhaustive for lists up to length 7, strides 1..4); and the phasor Poynting post-processing Re(E x H*), direction sign, component selection and the 1/2 factor in continuous mode only. All by abstract interpretation on symbolic fields with every unspecified detector attribute symbolic, so an extraneous factor shows up. Floating-point accumulation error is not decided. The plane and the closed surface of the Poynting variants, composed from C16's rules: the propagation-axis decision table of the phasor classes (axis 0 included) and compute_net_flux of the closed-surface detector for one and two frequencies — each frequency's net flux is its own signed face sum, not the sum over frequencies.",
     TB + "; sa/ndarr.py broadcasting/indexing model of the jnp subset; state arrays adopt the shape of what is accumulated into them",
     "abstract interpretation to rational normal forms over an n-d array domain; factor-quotient test per entry",
     "DESIGN.md §5 C17",
@@ -133,7 +133,7 @@ claim(
 claim(
     "C28",
     "other",
-    "Decides the assembly of the static material arrays by abstract interpretation of _init_arrays up to the end of its placement loop on scenes of uniform-material boxes with symbolic, arbitrarily overlapping grid slices, concrete placement orders (ties, out-of-order listing) and concrete rational material tensors of every tier, built through Material.__init__ with tier flags computed by the repo's own container / material predicates. Per array the component count and, per component, the cell value as a polynomial in the boxes' region indicators are compared with the oracle: paint in ascending placement order, list order breaking ties, volume first, with 1/eps, 1/mu (3x3 inverse in the 9-tier) or sigma*c*dt/courant of each object's own tensor; count = widest tier any material needs; scalar 1 for a non-magnetic scene; no conductivity array for a lossless scene; container predicates consult the Material predicate of the same name. Exact for every overlap pattern at once. The statement that sorts the static objects, interpreted on four mixed lists of uniform and multi-material objects, orders by placement order alone with list order breaking ties; _invert_property is the entry-wise reciprocal on the 1- / 3-component tiers and the row-major matrix inverse of a general non-symmetric tensor on the 9-component tier (M inv = 1 as an identity in nine free entries). Multi-material voxel masks and sub-pixel smoothing are not decided.",
+    "Decides the assembly of the static material arrays by abstract interpretation of _init_arrays up to the end of its placement loop on scenes of uniform-material boxes with symbolic, arbitrarily overlapping grid slices, concrete placement orders (ties, out-of-order listing) and concrete rational material tensors of every tier, built through Material.__init__ with tier flags computed by the repo's own container / material predicates. Per array the component count and, per component, the cell value as a polynomial in the boxes' region indicators are compared with the oracle: paint in ascending placement order, list order breaking ties, volume first, with 1/eps, 1/mu (3x3 inverse in the 9-tier) or sigma*c*dt/courant of each object's own tensor; count = widest tier any material needs; scalar 1 for a non-magnetic scene; no conductivity array for a lossless scene; container predicates consult the Material predicate of the same name. Exact for every overlap pattern at once. The statement that sorts the static objects, interpreted on four mixed lists of uniform and multi-material objects, orders by placement order alone with list order breaking ties; _invert_property is the entry-wise reciprocal on the 1- / 3-component tiers and the row-major matrix inverse of a general non-symmetric tensor on the 9-component tier (M inv = 1 as an identity in nine free entries). Multi-material voxel masks and sub-pixel smoothing are not decided. Shaped objects: get_material_mapping of every single-material shape (cylinder, sphere, polygon, GDS stack) interpreted over all insertion orders of the dictionary gives the index in the property-sorted order of the allowed-value tables (R28.8); the StaticMultiMaterialObject branch of the placement loop, interpreted on a two-cell object with symbolic mask fractions and distinct material indices, moves each of the four arrays towards the voxel's own material's value from the table of that array's own kind and leaves the cell outside the slice alone (R28.9).",
     TB + "; sa/ndarr.py indicator algebra for .at[region].set; prefix slicing of _init_arrays at the end of the placement loop; models of create_named_sharded_matrix / sharding_preserving_set",
     "abstract interpretation of a function prefix over an indicator-algebra array domain; polynomial identity against a painter's-order oracle; syntax-tree sibling-name rule",
     "DESIGN.md §5 C28",
@@ -313,7 +313,7 @@ claim(
 claim(
     "C24",
     "other",
-    "Median filter: binary_median_filter interpreted on concrete small volumes of free symbols, for five kernel shapes and six padding configurations (constant / edge / reflect / symmetric faces, per-face widths and fill values, the shipped substrate pattern): every voxel is round(box sum / box size) over the odd box centred on it in the volume padded face by face, checked against an independent pointwise padding oracle; for binary data and odd size that is the majority (arithmetic fact, not read off the code). The module applies it num_repeats times through the straight-through estimator. Pillar discretization: compute_allowed_indices equals, as a duplicate-free set, the columns with background only at the top end and (when requested) at most one distinct non-background material, for heights 1..4, 2..4 materials, every background index (the filter depends only on #distinct non-background values and background presence, all classes realised); nearest_index yields per candidate and pillar the documented distance (Euclidean, or mean|diff-diff| + |mean-mean|) and the argmin of exactly those over the candidate axis; PillarDiscretization writes layer l of the chosen candidate at height l for each pillar axis. Degenerate extents are included: a design one voxel thick under a 3-d kernel (the padding voxels of the flat axis count), blocks one voxel thick along z keep the configured metric for pillars along x / y, and pillars of height one use |value - candidate|. Ties / round-off in the argmin are not decided.",
+    "Median filter: binary_median_filter interpreted on concrete small volumes of free symbols, for five kernel shapes and six padding configurations (constant / edge / reflect / symmetric faces, per-face widths and fill values, the shipped substrate pattern): every voxel is round(box sum / box size) over the odd box centred on it in the volume padded face by face, checked against an independent pointwise padding oracle; for binary data and odd size that is the majority (arithmetic fact, not read off the code). The module applies it num_repeats times through the straight-through estimator. Pillar discretization: compute_allowed_indices equals, as a duplicate-free set, the columns with background only at the top end and (when requested) at most one distinct non-background material, for heights 1..4, 2..4 materials, every background index (the filter depends only on #distinct non-background values and background presence, all classes realised); nearest_index yields per candidate and pillar the documented distance (Euclidean, or mean|diff-diff| + |mean-mean|) and the argmin of exactly those over the candidate axis; PillarDiscretization writes layer l of the chosen candidate at height l for each pillar axis. Degenerate extents are included: a design one voxel thick under a 3-d kernel (the padding voxels of the flat axis count), blocks one voxel thick along z keep the configured metric for pillars along x / y, and pillars of height one use |value - candidate|. Ties / round-off in the argmin are not decided. The candidate table's background (R24.5): PillarDiscretization.init_module interpreted over every insertion order of a three-material dictionary, default and explicit background, each pillar axis — the index handed to the column enumeration is the background's position in the permittivity-sorted order that __call__ uses for the candidates' values.",
     TB + "; n-d convolution and np.pad models on concrete arrays; argmin as an opaque selector; symbolic gather",
     "abstract interpretation on concrete small volumes of free symbols against a pointwise padding / box-sum oracle; small-scope enumeration of the column grammar justified by the filter's equivalence classes; symbolic gather for the write-back",
     "DESIGN.md §5 C24",
@@ -331,7 +331,7 @@ claim(
 claim(
     "C38",
     "other",
-    "Narrow: equality of whole runs is not decided; decided are the three things it rests on. (1) UniformGrid.resolve and QuasiUniformGrid.resolve, interpreted for symbolic spacing and centre on several shapes, construct the RectilinearGrid from the same edges centre_a + s (i - n_a/2) (construction intercepted, entry-wise), _resolve_grid_from_volume derives the same cell counts for both policies and leaves an explicit grid alone. (2) RectilinearGrid.cfl_time_step gives the same step on its uniform and its general branch for equal minimal spacings, the policies' time_step_duration equals it, and with that step _metric_scale and TFSFPlaneSource._metric_scale_at_plane are identically 1 on equal widths for both stencils, so the metric-aware path coincides with the uniform one. (3) _center_to_bounds_for_grid, length_to_cell_count and axis_extent select the same cells for an equal-spaced grid whatever its origin, over all position / size classes. The constructor's uniformity verdict for equal widths (exact, or with a few ulp of jitter) is the same for every origin, entirely negative coordinates included; place_objects, interpreted up to the grid pinning on abstract grids that record the operations applied to them, pins the solver grid by the same route for the three descriptions (realise on the full shape, then reduce_symmetric under symmetry — 3 symmetries x 3 descriptions). Float round-off of edge arithmetic is not decided.",
+    "Narrow: equality of whole runs is not decided; decided are the three things it rests on. (1) UniformGrid.resolve and QuasiUniformGrid.resolve, interpreted for symbolic spacing and centre on several shapes, construct the RectilinearGrid from the same edges centre_a + s (i - n_a/2) (construction intercepted, entry-wise), _resolve_grid_from_volume derives the same cell counts for both policies and leaves an explicit grid alone. (2) RectilinearGrid.cfl_time_step gives the same step on its uniform and its general branch for equal minimal spacings, the policies' time_step_duration equals it, and with that step _metric_scale and TFSFPlaneSource._metric_scale_at_plane are identically 1 on equal widths for both stencils, so the metric-aware path coincides with the uniform one. (3) _center_to_bounds_for_grid, length_to_cell_count and axis_extent select the same cells for an equal-spaced grid whatever its origin, over all position / size classes. The constructor's uniformity verdict for equal widths (exact, or with a few ulp of jitter) is the same for every origin, entirely negative coordinates included; place_objects, interpreted up to the grid pinning on abstract grids that record the operations applied to them, pins the solver grid by the same route for the three descriptions (realise on the full shape, then reduce_symmetric under symmetry — 3 symmetries x 3 descriptions). Float round-off of edge arithmetic is not decided. The explicit description RectilinearGrid.uniform(shape, s, center=c) (no origin) is held to the same closed-form edges, on odd as well as even cell counts, and the cell counts derived from a metric volume size are the same for a non-zero policy centre.",
     TB + "; intercepted RectilinearGrid construction; rational numpy model of C37; sqrt opaque with sqrt(u)^2 = u",
     "abstract interpretation with symbolic spacing / centre against closed-form edges; polynomial identities for time step and metric factors; order-type enumeration for origin independence",
     "DESIGN.md §5 C38",
